@@ -1693,6 +1693,14 @@ var rR22m = RuleRef{Name: "R22m", Doc: "a deadline record is never moved: every 
 			return fresh(x.X, depth, seen)
 		case *ssa.Alloc:
 			return true
+		case *ssa.UnOp:
+			// a local variable kept in a cell (captured by the timer closure): whatever is stored into it
+			if al, ok := x.X.(*ssa.Alloc); ok && x.Op == token.MUL {
+				if sv := singleStore(al); sv != nil {
+					return fresh(sv, depth, seen)
+				}
+			}
+			return false
 		case *ssa.Phi:
 			for _, e := range x.Edges {
 				if !fresh(e, depth, seen) {
